@@ -17,6 +17,7 @@ type GenCfg struct {
 	Csig       int  // nesting levels of countersignatures still allowed
 	Tags       bool // allow tags inside protected header values
 	Floats     bool
+	NoAlg      bool // never add a random alg entry (the caller controls label 1)
 }
 
 var defaultCfg = GenCfg{MaxEntries: 6, ValDepth: 3, Csig: 2, Tags: true, Floats: true}
@@ -160,7 +161,7 @@ func genBucket(r *Rng, cfg GenCfg, protected bool, withAlg int64, haveAlg bool, 
 	for i := 0; i < n; i++ {
 		switch r.Intn(14) {
 		case 0:
-			if !haveAlg || !protected {
+			if (!haveAlg || !protected) && !(cfg.NoAlg && protected) {
 				if r.Chance(1, 4) {
 					addInt(1, wTstr("ES256K-custom", -1))
 				} else {
